@@ -134,6 +134,8 @@ class UniAdapter:
                 dev = cb in DEVIANT or cq in DEVIANT
                 if rname != "in" and (cb, cq) not in (("part", "part"), ("over", "over"), ("part", "huge"), ("huge", "part"), ("all", "all")):
                     continue
+                if rname.startswith("edge") and (cb, cq) != ("part", "part"):
+                    continue
 
                 def call(c, lo=lo, hi=hi, cb=cb, cq=cq):
                     b = _bal(c, base)
@@ -210,6 +212,9 @@ class UniAdapter:
         out.append(Op(f"{name}.even_rebalance", lambda c: m.even_rebalance(), False, f"{name}.even_rebalance", {"swap": True}))
         for rname, (rlo, rhi) in self.ranges.items():
             for cls in ("None", "part", "over"):
+                if rname.startswith("edge") and cls != "part":
+                    continue
+
                 def byval(c, rlo=rlo, rhi=rhi, cls=cls):
                     price = m.market_status.data.price
                     total = _bal(c, quote) + _bal(c, base) * price
